@@ -270,11 +270,41 @@ pub(crate) fn parse_block_size_from_bytes(bytes: &mut &[u8]) -> Result<(u32, usi
 ///     (the first character of consecutive characters that are shortened).
 /// 2.  The length of the *original* consecutive characters
 ///     (that are shortened into [`MAX_SEQUENCE_SIZE`](block_hash::MAX_SEQUENCE_SIZE)).
+#[allow(dead_code)] // the non-limiting form is now only called directly by the tests
 #[inline(always)]
 pub(crate) fn parse_block_hash_from_bytes<F, const N: usize>(
     blockhash: &mut [u8; N],
     blockhash_len: &mut u8,
     normalize: bool,
+    bytes: &mut &[u8],
+    report_norm_seq: F,
+) -> (BlockHashParseState, usize)
+where
+    F: FnMut(usize, usize),
+    BlockHashSize<N>: ConstrainedBlockHashSize,
+{
+    parse_block_hash_from_bytes_internal(
+        blockhash,
+        blockhash_len,
+        normalize,
+        false,
+        bytes,
+        report_norm_seq,
+    )
+}
+
+/// The internal implementation of [`parse_block_hash_from_bytes()`].
+///
+/// If `limit_raw_len` is true, a block hash whose *raw* length (before the
+/// normalization) exceeds `N` is rejected even if `normalize` is true
+/// (required by types preserving the raw form such as dual fuzzy hashes).
+#[cfg_attr(feature = "strict-parser", allow(unused_variables))]
+#[inline(always)]
+pub(crate) fn parse_block_hash_from_bytes_internal<F, const N: usize>(
+    blockhash: &mut [u8; N],
+    blockhash_len: &mut u8,
+    normalize: bool,
+    limit_raw_len: bool,
     bytes: &mut &[u8],
     mut report_norm_seq: F,
 ) -> (BlockHashParseState, usize)
@@ -305,6 +335,16 @@ where
                 break true;
             }
             let curr = bch;
+            // Types preserving the raw form (dual hashes) must reject a block
+            // hash whose raw length exceeds the capacity even if its
+            // normalized form would fit (the strict parser does it for all).
+            #[cfg(not(feature = "strict-parser"))]
+            if limit_raw_len && crate::internals::intrinsics::unlikely(index >= N) {
+                *blockhash_len = len as u8;
+                invariant!(index <= bytes.len());
+                *bytes = &bytes[index..]; // grcov-excl-br-line:ARRAY
+                return (BlockHashParseState::OverflowError, index);
+            }
             if normalize {
                 if curr == prev {
                     seq += 1;
